@@ -21,6 +21,7 @@ Updated 2026-05-06: Added Segment Type C support (RFC 9831).
 
 from __future__ import annotations
 
+import socket
 from typing import Any
 
 from exabgp.bgp.message.update.attribute.tunnel_encap import TunnelEncap
@@ -54,12 +55,34 @@ from exabgp.protocol.family import AFI
 from exabgp.protocol.ip import IP
 
 _MPLS_LABEL_MAX = 1048575  # 2^20 - 1
+_UINT8_MAX = 0xFF
+_UINT16_MAX = 0xFFFF
+_UINT32_MAX = 0xFFFFFFFF
+
+
+def _number(tokeniser: Any, what: str, maximum: int, base: int = 10) -> int:
+    """Read one unsigned integer which has to fit the field it is sent in."""
+    value = int(tokeniser(), base)
+    if value < 0 or value > maximum:
+        raise ValueError(f'{what} {value} out of range (0-{maximum})')
+    return value
+
+
+def _address(tokeniser: Any, what: str, family: int) -> str:
+    """Read one IP address of the given family (it is packed when the route is encoded)."""
+    value: str = tokeniser()
+    try:
+        socket.inet_pton(family, value)
+    except (OSError, ValueError, TypeError):
+        kind = 'IPv6' if family == socket.AF_INET6 else 'IPv4'
+        raise ValueError(f"{what} '{value}' is not a valid {kind} address") from None
+    return value
 
 
 def _parse_segment_list(tokeniser: Any) -> SegmentListSubTLV:
     """Parse: weight <N> [segment type-a/b/c/f/g/h/i/j/k ...]"""
     tokeniser.consume('weight')
-    weight_val = int(tokeniser())
+    weight_val = _number(tokeniser, 'segment-list weight', _UINT32_MAX)
     weight = WeightSubSubTLV(weight=weight_val)
 
     segments: list[
@@ -87,16 +110,16 @@ def _parse_segment_list(tokeniser: Any) -> SegmentListSubTLV:
             segments.append(SegmentTypeA(label=label))
         elif seg_type == 'type-b':
             tokeniser.consume('srv6')
-            sid = tokeniser()
+            sid = _address(tokeniser, 'SRv6 SID', socket.AF_INET6)
             # Check for optional endpoint-behavior
             eb: SRv6EndpointBehavior | None = None
             if tokeniser.peek() == 'endpoint-behavior':
                 tokeniser()  # consume 'endpoint-behavior'
-                behavior = int(tokeniser(), 0)  # allow 0x prefix
-                lb = int(tokeniser())
-                ln = int(tokeniser())
-                fun = int(tokeniser())
-                arg = int(tokeniser())
+                behavior = _number(tokeniser, 'endpoint-behavior', _UINT16_MAX, 0)  # allow 0x prefix
+                lb = _number(tokeniser, 'locator block length', _UINT8_MAX)
+                ln = _number(tokeniser, 'locator node length', _UINT8_MAX)
+                fun = _number(tokeniser, 'function length', _UINT8_MAX)
+                arg = _number(tokeniser, 'argument length', _UINT8_MAX)
                 eb = SRv6EndpointBehavior(
                     endpoint_behavior=behavior,
                     lb_length=lb,
@@ -107,9 +130,9 @@ def _parse_segment_list(tokeniser: Any) -> SegmentListSubTLV:
             segments.append(SegmentTypeB(sid=sid, endpoint_behavior=eb))
         elif seg_type == 'type-c':
             tokeniser.consume('ipv4')
-            ipv4_node = tokeniser()
+            ipv4_node = _address(tokeniser, 'ipv4 node', socket.AF_INET)
             tokeniser.consume('algorithm')
-            algorithm = int(tokeniser())
+            algorithm = _number(tokeniser, 'algorithm', _UINT8_MAX)
             # Check for optional sid
             sid = None
             if tokeniser.peek() == 'sid':
@@ -122,9 +145,9 @@ def _parse_segment_list(tokeniser: Any) -> SegmentListSubTLV:
             segments.append(SegmentTypeC(ipv4_node=ipv4_node, algorithm=algorithm, flags=flags, sid=sid))
         elif seg_type == 'type-d':
             tokeniser.consume('ipv6')
-            ipv6_node = tokeniser()
+            ipv6_node = _address(tokeniser, 'ipv6 node', socket.AF_INET6)
             tokeniser.consume('algorithm')
-            algorithm = int(tokeniser())
+            algorithm = _number(tokeniser, 'algorithm', _UINT8_MAX)
             # Check for optional sid
             sid = None
             if tokeniser.peek() == 'sid':
@@ -137,9 +160,9 @@ def _parse_segment_list(tokeniser: Any) -> SegmentListSubTLV:
             segments.append(SegmentTypeD(ipv6_node=ipv6_node, algorithm=algorithm, flags=flags, sid=sid))
         elif seg_type == 'type-e':
             tokeniser.consume('local-if-id')
-            local_if_id = int(tokeniser())
+            local_if_id = _number(tokeniser, 'local-if-id', _UINT32_MAX)
             tokeniser.consume('ipv4')
-            ipv4_node = tokeniser()
+            ipv4_node = _address(tokeniser, 'ipv4 node', socket.AF_INET)
             # Check for optional sid
             sid = None
             if tokeniser.peek() == 'sid':
@@ -150,29 +173,29 @@ def _parse_segment_list(tokeniser: Any) -> SegmentListSubTLV:
             segments.append(SegmentTypeE(local_if_id=local_if_id, ipv4_node=ipv4_node, sid=sid))
         elif seg_type == 'type-f':
             tokeniser.consume('local')
-            local_ipv4 = tokeniser()
+            local_ipv4 = _address(tokeniser, 'local ipv4', socket.AF_INET)
             tokeniser.consume('remote')
-            remote_ipv4 = tokeniser()
+            remote_ipv4 = _address(tokeniser, 'remote ipv4', socket.AF_INET)
             # Check for optional sid
             sid = None
             if tokeniser.peek() == 'sid':
                 tokeniser()  # consume 'sid'
-                sid = int(tokeniser())
+                sid = _number(tokeniser, 'MPLS SID', _MPLS_LABEL_MAX)
             segments.append(SegmentTypeF(local_ipv4=local_ipv4, remote_ipv4=remote_ipv4, sid=sid))
         elif seg_type == 'type-g':
             tokeniser.consume('local-if-id')
-            local_if_id = int(tokeniser())
+            local_if_id = _number(tokeniser, 'local-if-id', _UINT32_MAX)
             tokeniser.consume('local-ipv6')
-            local_ipv6 = tokeniser()
+            local_ipv6 = _address(tokeniser, 'local ipv6', socket.AF_INET6)
             tokeniser.consume('remote-if-id')
-            remote_if_id = int(tokeniser())
+            remote_if_id = _number(tokeniser, 'remote-if-id', _UINT32_MAX)
             tokeniser.consume('remote-ipv6')
-            remote_ipv6 = tokeniser()
+            remote_ipv6 = _address(tokeniser, 'remote ipv6', socket.AF_INET6)
             # Check for optional sid
             sid = None
             if tokeniser.peek() == 'sid':
                 tokeniser()  # consume 'sid'
-                sid = int(tokeniser())
+                sid = _number(tokeniser, 'MPLS SID', _MPLS_LABEL_MAX)
             segments.append(
                 SegmentTypeG(
                     local_if_id=local_if_id,
@@ -184,34 +207,34 @@ def _parse_segment_list(tokeniser: Any) -> SegmentListSubTLV:
             )
         elif seg_type == 'type-h':
             tokeniser.consume('local')
-            local_ipv6 = tokeniser()
+            local_ipv6 = _address(tokeniser, 'local ipv6', socket.AF_INET6)
             tokeniser.consume('remote')
-            remote_ipv6 = tokeniser()
+            remote_ipv6 = _address(tokeniser, 'remote ipv6', socket.AF_INET6)
             # Check for optional sid
             sid = None
             if tokeniser.peek() == 'sid':
                 tokeniser()  # consume 'sid'
-                sid = int(tokeniser())
+                sid = _number(tokeniser, 'MPLS SID', _MPLS_LABEL_MAX)
             segments.append(SegmentTypeH(local_ipv6=local_ipv6, remote_ipv6=remote_ipv6, sid=sid))
         elif seg_type == 'type-i':
             tokeniser.consume('ipv6')
-            ipv6_node = tokeniser()
+            ipv6_node = _address(tokeniser, 'ipv6 node', socket.AF_INET6)
             tokeniser.consume('algorithm')
-            algorithm = int(tokeniser())
+            algorithm = _number(tokeniser, 'algorithm', _UINT8_MAX)
             # Check for optional sid
             sid = None
             if tokeniser.peek() == 'sid':
                 tokeniser()  # consume 'sid'
-                sid = tokeniser()
+                sid = _address(tokeniser, 'SRv6 SID', socket.AF_INET6)
             # Check for optional endpoint-behavior
             eb = None
             if tokeniser.peek() == 'endpoint-behavior':
                 tokeniser()  # consume 'endpoint-behavior'
-                behavior = int(tokeniser(), 0)  # allow 0x prefix
-                lb = int(tokeniser())
-                ln = int(tokeniser())
-                fun = int(tokeniser())
-                arg = int(tokeniser())
+                behavior = _number(tokeniser, 'endpoint-behavior', _UINT16_MAX, 0)  # allow 0x prefix
+                lb = _number(tokeniser, 'locator block length', _UINT8_MAX)
+                ln = _number(tokeniser, 'locator node length', _UINT8_MAX)
+                fun = _number(tokeniser, 'function length', _UINT8_MAX)
+                arg = _number(tokeniser, 'argument length', _UINT8_MAX)
                 eb = SRv6EndpointBehavior(
                     endpoint_behavior=behavior,
                     lb_length=lb,
@@ -230,29 +253,29 @@ def _parse_segment_list(tokeniser: Any) -> SegmentListSubTLV:
             )
         elif seg_type == 'type-j':
             tokeniser.consume('local-if-id')
-            local_if_id = int(tokeniser())
+            local_if_id = _number(tokeniser, 'local-if-id', _UINT32_MAX)
             tokeniser.consume('local-ipv6')
-            local_ipv6 = tokeniser()
+            local_ipv6 = _address(tokeniser, 'local ipv6', socket.AF_INET6)
             tokeniser.consume('remote-if-id')
-            remote_if_id = int(tokeniser())
+            remote_if_id = _number(tokeniser, 'remote-if-id', _UINT32_MAX)
             tokeniser.consume('remote-ipv6')
-            remote_ipv6 = tokeniser()
+            remote_ipv6 = _address(tokeniser, 'remote ipv6', socket.AF_INET6)
             tokeniser.consume('algorithm')
-            algorithm = int(tokeniser())
+            algorithm = _number(tokeniser, 'algorithm', _UINT8_MAX)
             # Check for optional sid
             sid = None
             if tokeniser.peek() == 'sid':
                 tokeniser()  # consume 'sid'
-                sid = tokeniser()
+                sid = _address(tokeniser, 'SRv6 SID', socket.AF_INET6)
             # Check for optional endpoint-behavior
             eb = None
             if tokeniser.peek() == 'endpoint-behavior':
                 tokeniser()  # consume 'endpoint-behavior'
-                behavior = int(tokeniser(), 0)  # allow 0x prefix
-                lb = int(tokeniser())
-                ln = int(tokeniser())
-                fun = int(tokeniser())
-                arg = int(tokeniser())
+                behavior = _number(tokeniser, 'endpoint-behavior', _UINT16_MAX, 0)  # allow 0x prefix
+                lb = _number(tokeniser, 'locator block length', _UINT8_MAX)
+                ln = _number(tokeniser, 'locator node length', _UINT8_MAX)
+                fun = _number(tokeniser, 'function length', _UINT8_MAX)
+                arg = _number(tokeniser, 'argument length', _UINT8_MAX)
                 eb = SRv6EndpointBehavior(
                     endpoint_behavior=behavior,
                     lb_length=lb,
@@ -280,25 +303,25 @@ def _parse_segment_list(tokeniser: Any) -> SegmentListSubTLV:
             )
         elif seg_type == 'type-k':
             tokeniser.consume('local')
-            local_ipv6 = tokeniser()
+            local_ipv6 = _address(tokeniser, 'local ipv6', socket.AF_INET6)
             tokeniser.consume('remote')
-            remote_ipv6 = tokeniser()
+            remote_ipv6 = _address(tokeniser, 'remote ipv6', socket.AF_INET6)
             tokeniser.consume('algorithm')
-            algorithm = int(tokeniser())
+            algorithm = _number(tokeniser, 'algorithm', _UINT8_MAX)
             # Check for optional sid
             sid = None
             if tokeniser.peek() == 'sid':
                 tokeniser()  # consume 'sid'
-                sid = tokeniser()
+                sid = _address(tokeniser, 'SRv6 SID', socket.AF_INET6)
             # Check for optional endpoint-behavior
             eb = None
             if tokeniser.peek() == 'endpoint-behavior':
                 tokeniser()  # consume 'endpoint-behavior'
-                behavior = int(tokeniser(), 0)  # allow 0x prefix
-                lb = int(tokeniser())
-                ln = int(tokeniser())
-                fun = int(tokeniser())
-                arg = int(tokeniser())
+                behavior = _number(tokeniser, 'endpoint-behavior', _UINT16_MAX, 0)  # allow 0x prefix
+                lb = _number(tokeniser, 'locator block length', _UINT8_MAX)
+                ln = _number(tokeniser, 'locator node length', _UINT8_MAX)
+                fun = _number(tokeniser, 'function length', _UINT8_MAX)
+                arg = _number(tokeniser, 'argument length', _UINT8_MAX)
                 eb = SRv6EndpointBehavior(
                     endpoint_behavior=behavior,
                     lb_length=lb,
@@ -351,20 +374,20 @@ def _parse_sr_policy_subtlvs(tokeniser: Any) -> list[Any]:
     while tokeniser.peek() in _SR_KEYS:
         key = tokeniser()
         if key == 'preference':
-            subtlvs.append(PreferenceSubTLV(preference=int(tokeniser())))
+            subtlvs.append(PreferenceSubTLV(preference=_number(tokeniser, 'preference', _UINT32_MAX)))
         elif key == 'priority':
-            subtlvs.append(PrioritySubTLV(priority=int(tokeniser())))
+            subtlvs.append(PrioritySubTLV(priority=_number(tokeniser, 'priority', _UINT8_MAX)))
         elif key == 'binding-sid':
             bsid_type = tokeniser()
             if bsid_type == 'mpls':
-                label = int(tokeniser())
+                label = _number(tokeniser, 'binding-sid label', _MPLS_LABEL_MAX)
                 subtlvs.append(BindingSIDSubTLV(label=label))
             elif bsid_type == 'null':
                 subtlvs.append(BindingSIDSubTLV(label=None))
             else:
                 raise ValueError(f"Unknown binding-sid type '{bsid_type}'. Expected: mpls, null")
         elif key == 'srv6-binding-sid':
-            sid = tokeniser()
+            sid = _address(tokeniser, 'srv6-binding-sid', socket.AF_INET6)
             subtlvs.append(SRv6BindingSIDSubTLV(sid=sid))
         elif key == 'policy-name':
             name = tokeniser().strip('"').strip("'")
@@ -392,11 +415,11 @@ def sr_policy_route(tokeniser: Any, afi: AFI) -> tuple[SRPolicyNLRI, IP, TunnelE
       (nlri, nexthop, tunnel_encap_or_None)
     """
     tokeniser.consume('distinguisher')
-    distinguisher = int(tokeniser())
+    distinguisher = _number(tokeniser, 'distinguisher', _UINT32_MAX)
     tokeniser.consume('color')
-    color = int(tokeniser())
+    color = _number(tokeniser, 'color', _UINT32_MAX)
     tokeniser.consume('endpoint')
-    endpoint = tokeniser()
+    endpoint = _address(tokeniser, 'endpoint', socket.AF_INET6 if afi == AFI.ipv6 else socket.AF_INET)
 
     nlri = SRPolicyNLRI.create(afi=afi, distinguisher=distinguisher, color=color, endpoint=endpoint)
 
